@@ -32,10 +32,15 @@ def obligations(tier, seed):
         for k1 in k1s:
             hist.append(['k1 == %d' % k1, 'k2 == %d' % k2, 'len(A) == 3 and len(P) == 3',
                          '"." not in A', 'rg == %s' % (i % 2 == 0)])
+    # set_order: the string sets of the renamer are global_names / nonlocal_names (global and nonlocal statements, names
+    # loaded in class bodies) and assigned_names: the quick tier takes every skeleton with a global/nonlocal statement or a
+    # class body plus two others; thorough takes all
     order = []
-    for i, k in enumerate(k2s[:6] if tier == 'quick' else k2s):
-        order.append(['k == %d' % k, 'len(A) == 3 and len(B) == 3 and len(C) == 3', '"." not in A and "." not in B and "." not in C',
-                      'rg == %s' % (i % 2 == 1)])
+    setty = [k for k in range(n) if any(w in skeletons.TEMPLATES[k][1] for w in ('global ', 'nonlocal ', 'class '))]
+    chosen = (setty + [k for k in k2s if k not in setty][:2]) if tier == 'quick' else list(range(n))
+    for i, k in enumerate(chosen):
+        for rg in ((bool((i + seed) % 2),) if tier == 'quick' and 'global ' not in skeletons.TEMPLATES[k][1] else (True, False)):
+            order.append(['k == %d' % k, 'len(A) == 3 and len(B) == 3 and len(C) == 3', '"." not in A and "." not in B and "." not in C', 'rg == %s' % rg])
     return [
         dict(name='C11.history', fn='history', shards=hist, timeout=t, bounds='see META'),
         dict(name='C11.set_order', fn='set_order', shards=order, timeout=t, bounds='see META'),
